@@ -188,7 +188,13 @@ func main() {
 		if h.DevBound != nil {
 			db = h.DevBound[v.Tier]
 		}
-		res, log := mc.Replay(v.Property, v.Harness, v.Tier, db, v.Choices, h.Body)
+		var res *mc.Result
+		var log []string
+		if len(v.Choices2) > 0 {
+			res, log = mc.ReplayPair(v.Property, v.Harness, v.Tier, db, v.Choices2, v.Choices, h.Body)
+		} else {
+			res, log = mc.Replay(v.Property, v.Harness, v.Tier, db, v.Choices, h.Body)
+		}
 		if !quiet {
 			for _, l := range log {
 				fmt.Println("  |", l)
